@@ -284,6 +284,20 @@ def parse_trace(line):
     return [tuple(v[i:i + 4]) for i in range(0, len(v), 4)]
 
 
+def strip_aux(line):
+    """drop the monitor-only observations (kind 929) from an implementation trace line"""
+    if line is None or " 929 " not in line:
+        return line
+    v = line.split()
+    if len(v) % 4:
+        return line
+    out = []
+    for i in range(0, len(v), 4):
+        if v[i + 2] != "929":
+            out += v[i:i + 4]
+    return " ".join(out)
+
+
 def first_diff(a, b):
     ta, tb = a.split(), b.split()
     for i in range(min(len(ta), len(tb))):
@@ -323,10 +337,10 @@ def correspond(ctx, label, model, exe, cases, monitor=None, known=None):
             steps += len(tr)
             if any(k // 10 in (8, 12) for (_, _, k, _) in tr) or any(k == 909 and v == 0 for (_, _, k, v) in tr):
                 nontrivial.add(c)
-        if impl[i] != mod[i]:
+        if strip_aux(impl[i]) != mod[i]:
             ndiff += 1
             if ndiff <= 3:
-                d = first_diff(impl[i] or "", mod[i] or "")
+                d = first_diff(strip_aux(impl[i]) or "", mod[i] or "")
                 ctx.failures.append({"kind": "correspondence", "label": label, "case": c,
                                      "impl": (impl[i] or "")[:4000], "model": (mod[i] or "")[:4000],
                                      "first_diff_event": d})
